@@ -396,7 +396,7 @@ class Histogram1D(ObjectWithBinning, HistogramBase):
                 self.overflow += weight
         else:
             self._frequencies[ixbin] += weight
-            self._errors2[ixbin] += weight**2
+            self._errors2[ixbin] += float(weight) ** 2 if isinstance(weight, np.generic) else weight**2
             try:
                 self._stats = dataclasses.replace(
                     self.statistics,
